@@ -42,6 +42,12 @@ db.Mode = i
 """,
         what="loop variable read after a for-range loop holds the first value past the range (3), not the last one (2)",
     ),
+    "named_batch_slot_store": dict(
+        src=HDR + """
+ArcFurnaces["Smelter"].Export.Occupied = d0.Setting
+""",
+        what="slot store through a name-filtered batch handle: the name filter is dropped (plain sbs to every device of the type)",
+    ),
     "jump_table": dict(
         src=HDR + """
 db.Setting = [90, 91, 92, 93, 94, 95][d0.On]
